@@ -824,6 +824,10 @@ def graph_search(ctx, cfgs, trees, checks, *, burst_len, depth, respect_pacing, 
                 if cap and executions + len(jobs) > cap:
                     jobs = jobs[: max(0, cap - executions)]
                     capped = True
+                tl = os.environ.get("WDMC_TIME_LIMIT")
+                if tl and ctx.elapsed() > float(tl) * 4:
+                    jobs = []
+                    capped = True
                 nxt = []
                 for (t, hist, _), r in zip(jobs, pool.imap(_run_job, jobs, chunksize=4)):
                     executions += 1
